@@ -253,7 +253,9 @@ def plan(tier):
             for lo in range(0, total, 8192):
                 work.append(("comp", (body, lo, lo + 8192, (4096, 3))))
         elif len(wire) <= place_max:
-            work.append(("place", (body, wire, nb if len(wire) <= 60 else 2)))
+            # (large compressed bodies: one boundary at every position; two would be ~200 000
+            # placements of a 36 000-byte decode each)
+            work.append(("place", (body, wire, nb if len(wire) <= 60 else 2 if len(wire) <= 200 else 1)))
         else:
             work.append(("place", (body, wire, 1)))
         if idx in reps and len(wire) <= (64 if tier == "quick" else 128):
